@@ -83,14 +83,15 @@ Proof. revert a; induction l as [|y r IH]; intros a; cbn; [reflexivity | apply I
 (* the virtual attributes the code discards / the fields StateVal.__new__ sets are exactly the documented four *)
 Lemma consts_virtual_same k : mem_ident k state_virtual_attrs = mem_ident k doc_virtual_attrs.
 Proof.
-  unfold mem_ident, state_virtual_attrs, doc_virtual_attrs, doc_virtual_fields; cbn [map fst existsb].
+  unfold mem_ident, state_virtual_attrs, doc_virtual_attrs; cbn [existsb].
   repeat match goal with |- context [N.eqb k ?c] => destruct (N.eqb k c) end; reflexivity.
 Qed.
-Lemma consts_fields_doc : stateval_new_fields = doc_virtual_fields.
+(* each field is read from the hass State field of the same name (codes: 0 entity_id, 1 last_changed, 2 last_updated, 3 last_reported) *)
+Lemma consts_fields_doc : stateval_new_fields = [(100, 0); (102, 2); (101, 1); (103, 3)]%N.
 Proof. reflexivity. Qed.
-Lemma consts_fields_nodup : NoDup (map fst doc_virtual_fields).
+Lemma consts_fields_nodup : NoDup doc_virtual_attrs.
 Proof.
-  unfold doc_virtual_fields; cbn [map fst].
+  unfold doc_virtual_attrs.
   repeat (constructor; [cbn; intuition discriminate|]). constructor.
 Qed.
 
@@ -123,6 +124,7 @@ Section Refine.
   Variable H : host.
   Variable funcs : list ename.
   Variable svcargs : list (ident * ident).
+  Variable now : N.
   Hypothesis Hidem : forall v, h_str H (h_str H v) = h_str H v.      (* str(str(x)) == str(x) *)
   Hypothesis Hnn : forall v, h_str H v <> v_none.                    (* str(x) is never None *)
 
@@ -132,15 +134,15 @@ Section Refine.
   Proof. unfold is_none. apply N.eqb_neq. apply Hnn. Qed.
 
   (* invariant: stored states are strings (fixed points of str), captured snapshots carry such strings *)
-  Definition wf_ha (m : hamap) : Prop := forall e s, ha_get m e = Some s -> h_str H (fst s) = fst s.
+  Definition wf_ha (m : hamap) : Prop := forall e s, ha_get m e = Some s -> h_str H (hs_val s) = hs_val s.
   Definition wf_val (p : pyval) : Prop := match p with PSnap v _ => is_none v = false | _ => True end.
   Definition wf_slots (t : list (N * pyval)) : Prop := forall j, wf_val (slot_get j t).
   Definition wf_state (st : mstate) : Prop := wf_ha (ms_ha st) /\ wf_slots (ms_slots st).
 
-  Lemma wf_ha_not_none m e s : wf_ha m -> ha_get m e = Some s -> is_none (fst s) = false.
+  Lemma wf_ha_not_none m e s : wf_ha m -> ha_get m e = Some s -> is_none (hs_val s) = false.
   Proof. intros W E. rewrite <- (W e s E). apply is_none_str. Qed.
 
-  Lemma wf_ha_write m e s a : wf_ha m -> h_str H s = s -> wf_ha (ha_write H m e s a).
+  Lemma wf_ha_write m e s a : wf_ha m -> h_str H s = s -> wf_ha (ha_write H now m e s a).
   Proof.
     intros W Hs e' s' E. unfold ha_write in E.
     destruct (ha_get m e) as [s0|] eqn:Eg; rewrite ha_get_put in E;
@@ -155,24 +157,24 @@ Section Refine.
   (* ---------- state.py against the rules ---------- *)
   Lemma stateval_new_spec e s : stateval_new H e s = snapshot_of H e s.
   Proof.
-    unfold stateval_new, snapshot_of, aupdate, virtual_fields. rewrite consts_fields_doc, fold_left_map. reflexivity.
+    unfold stateval_new, snapshot_of, aupdate, virtual_fields. rewrite consts_fields_doc. reflexivity.
   Qed.
 
-  Lemma alookup_virtual_none e k :
-    mem_ident k state_virtual_attrs = false -> alookup k (virtual_fields H e) = None.
+  Lemma alookup_virtual_none e s k :
+    mem_ident k state_virtual_attrs = false -> alookup k (virtual_fields H e s) = None.
   Proof.
-    intros E. apply alookup_none_notin. unfold virtual_fields. rewrite map_map. cbn [fst].
+    intros E. apply alookup_none_notin. change (map fst (virtual_fields H e s)) with doc_virtual_attrs.
     rewrite consts_virtual_same in E. intros Hin.
     assert (mem_ident k doc_virtual_attrs = true); [|congruence].
     unfold mem_ident. apply existsb_exists. exists k. split; [exact Hin | apply N.eqb_refl].
   Qed.
 
   Lemma snap_getattr_spec e s k :
-    snap_getattr (aupdate (snd s) (virtual_fields H e)) k = entity_attr H e s k.
+    snap_getattr (aupdate (hs_attrs s) (virtual_fields H e s)) k = entity_attr H e s k.
   Proof.
     unfold snap_getattr, entity_attr. rewrite alookup_aupdate.
-    - destruct (alookup k (virtual_fields H e)); [reflexivity|]. destruct (alookup k (snd s)); reflexivity.
-    - unfold virtual_fields. rewrite map_map. cbn [fst]. exact consts_fields_nodup.
+    - destruct (alookup k (virtual_fields H e s)); [reflexivity|]. destruct (alookup k (hs_attrs s)); reflexivity.
+    - exact consts_fields_nodup.
   Qed.
 
   Lemma state_get_spec st nm : state_get H svcargs (ms_ha st) nm = spec_get H svcargs st nm.
@@ -201,7 +203,7 @@ Section Refine.
   Proof. destruct kw; reflexivity. Qed.
 
   Lemma state_set_spec m nm value na kw : wf_ha m -> wf_val value ->
-    state_set H m nm value na kw = spec_set H m nm value na kw.
+    state_set H now m nm value na kw = spec_set H now m nm value na kw.
   Proof.
     intros W Wv. unfold state_set, spec_set.
     destruct nm as [|d [|n [|x r]]]; try reflexivity.
@@ -223,7 +225,7 @@ Section Refine.
   Qed.
 
   Lemma state_setattr_spec m nm v : wf_ha m ->
-    state_setattr all_off H svcargs m nm v = spec_setattr H m nm v.
+    state_setattr all_off H now svcargs m nm v = spec_setattr H now m nm v.
   Proof.
     intros W. unfold state_setattr, spec_setattr.
     destruct nm as [|d [|n [|k [|x r]]]]; try reflexivity.
@@ -233,13 +235,13 @@ Section Refine.
     unfold spec_set, cur_attrs. rewrite Eg. cbn. reflexivity.
   Qed.
 
-  Lemma state_delete_spec m nm : wf_ha m -> state_delete H m nm = spec_delete H m nm.
+  Lemma state_delete_spec m nm : wf_ha m -> state_delete H now m nm = spec_delete H now m nm.
   Proof.
     intros W. unfold state_delete, spec_delete, ha_async_remove.
     destruct nm as [|d [|n [|k [|x r]]]]; try reflexivity.
     - destruct (ha_get m (d, n)); reflexivity.
     - destruct (ha_get m (d, n)) as [s|] eqn:Eg; [|reflexivity].
-      destruct (amem k (snd s)); [|reflexivity].
+      destruct (amem k (hs_attrs s)); [|reflexivity].
       rewrite state_set_spec by (assumption || exact I).
       unfold spec_set. rewrite (wf_ha_not_none m _ s W Eg), (W _ _ Eg). reflexivity.
   Qed.
@@ -265,8 +267,8 @@ Section Refine.
 
   Lemma entity_attr_raise e s k x : entity_attr H e s k = Raise x -> x = EAttributeError.
   Proof.
-    unfold entity_attr. destruct (alookup k (virtual_fields H e)); [discriminate|].
-    destruct (alookup k (snd s)); [discriminate|]. destruct (mem_ident k state_callable_attrs); [discriminate|].
+    unfold entity_attr. destruct (alookup k (virtual_fields H e s)); [discriminate|].
+    destruct (alookup k (hs_attrs s)); [discriminate|]. destruct (mem_ident k state_callable_attrs); [discriminate|].
     intros E; inversion E; reflexivity.
   Qed.
 
@@ -287,14 +289,14 @@ Section Refine.
     | None => EName
     | Some s =>
         if svc_method svcargs d k then EV PFunc
-        else if amem k (snd s) || mem_ident k state_virtual_attrs || mem_ident k state_callable_attrs
+        else if amem k (hs_attrs s) || mem_ident k state_virtual_attrs || mem_ident k state_callable_attrs
              then of_res (entity_attr H (d, n) s k) else EName
     end.
   Proof.
     unfold ast_name_dotted, function_get. cbn [cf_funcs cf_host cf_svcargs cf state_exist state_get].
     destruct (ha_get (ms_ha st) (d, n)) as [s|]; [|reflexivity].
     destruct (svc_method svcargs d k); cbn [orb]; [reflexivity|].
-    destruct (amem k (snd s) || mem_ident k state_virtual_attrs || mem_ident k state_callable_attrs); [|reflexivity].
+    destruct (amem k (hs_attrs s) || mem_ident k state_virtual_attrs || mem_ident k state_callable_attrs); [|reflexivity].
     rewrite stateval_new_spec. unfold snapshot_of. rewrite snap_getattr_spec. reflexivity.
   Qed.
 
@@ -325,15 +327,15 @@ Section Refine.
     2: { destruct (mem_ename (d, n) funcs || mem_ename (d, n) (ms_svcs st)); reflexivity. }
     destruct (svc_method svcargs d k) eqn:Es.
     { destruct (mem_ename (d, n) funcs || mem_ename (d, n) (ms_svcs st)); reflexivity. }
-    destruct (amem k (snd s) || mem_ident k state_virtual_attrs || mem_ident k state_callable_attrs) eqn:Ex.
+    destruct (amem k (hs_attrs s) || mem_ident k state_virtual_attrs || mem_ident k state_callable_attrs) eqn:Ex.
     - destruct (entity_attr H (d, n) s k) as [v|x] eqn:Ea.
       + destruct (mem_ename (d, n) funcs || mem_ename (d, n) (ms_svcs st)); reflexivity.
       + rewrite (entity_attr_raise _ _ _ _ Ea).
         destruct (mem_ename (d, n) funcs || mem_ename (d, n) (ms_svcs st)); reflexivity.
     - apply orb_false_iff in Ex. destruct Ex as [Ex Ecl]. apply orb_false_iff in Ex. destruct Ex as [Ea Ev].
       assert (Er : entity_attr H (d, n) s k = Raise EAttributeError).
-      { unfold entity_attr. rewrite (alookup_virtual_none _ _ Ev). unfold amem in Ea.
-        destruct (alookup k (snd s)); [discriminate|]. rewrite Ecl. reflexivity. }
+      { unfold entity_attr. rewrite (alookup_virtual_none _ _ _ Ev). unfold amem in Ea.
+        destruct (alookup k (hs_attrs s)); [discriminate|]. rewrite Ecl. reflexivity. }
       rewrite Er.
       destruct (mem_ename (d, n) funcs || mem_ename (d, n) (ms_svcs st)); cbn [of_res py_getattr]; [reflexivity|].
       unfold snapshot_of. cbn [py_getattr]. rewrite snap_getattr_spec, Er. reflexivity.
@@ -349,7 +351,7 @@ Section Refine.
     match r with Ok m => Ok (with_ha st m) | Raise x => Raise x end.
 
   Lemma assign_dn_spec locals st e val : dn_len_ok e = true -> wf_ha (ms_ha st) -> wf_val val ->
-    assign_dn cf locals st e val = spec_assign H funcs locals st (dn_parts e) val.
+    assign_dn cf locals st now e val = spec_assign H funcs now locals st (dn_parts e) val.
   Proof.
     intros L W Wv. destruct (dn_shape e L) as [(d & n & ->)|(d & n & k & ->)].
     - cbn [assign_dn]. unfold collapse. cbn [dn_head dn_parts app]. unfold ast_name_plain, spec_assign, denote, set_var_attr.
@@ -357,11 +359,11 @@ Section Refine.
       destruct (vlookup d (ms_globals st)) as [o|]; [destruct val; reflexivity|].
       cbn [cf_host cf_dev cf].
       assert (Ha : forall dd : denot, match dd with DPyLocal _ | DPyGlobal _ => True | _ => True end) by (destruct dd; exact I).
-      assert (E : match state_set H (ms_ha st) [d; n] (assign_value cf val) None [] with
+      assert (E : match state_set H now (ms_ha st) [d; n] (assign_value cf val) None [] with
                   | Ok m => Ok (with_ha st m) | Raise x => Raise x end
                   = match val with
-                    | PVal v => Ok (with_ha st (ha_write H (ms_ha st) (d, n) (h_str H v) (cur_attrs (ms_ha st) (d, n))))
-                    | PSnap v dct => Ok (with_ha st (ha_write H (ms_ha st) (d, n) (h_str H v) (without_virtual dct)))
+                    | PVal v => Ok (with_ha st (ha_write H now (ms_ha st) (d, n) (h_str H v) (cur_attrs (ms_ha st) (d, n))))
+                    | PSnap v dct => Ok (with_ha st (ha_write H now (ms_ha st) (d, n) (h_str H v) (without_virtual dct)))
                     | _ => Raise EUnmodelled
                     end).
       { unfold assign_value. cbn [cf_dev cf d_assign_none_omitted all_off cf_host].
@@ -379,14 +381,14 @@ Section Refine.
       { rewrite aeval2. unfold spec_read, denote. rewrite El, Egl. unfold obj_attr. destruct (alookup n o); reflexivity. }
       cbn [cf_host cf_dev cf cf_svcargs].
       assert (E : match val with
-                  | PVal v => match state_setattr all_off H svcargs (ms_ha st) [d; n; k] v with
+                  | PVal v => match state_setattr all_off H now svcargs (ms_ha st) [d; n; k] v with
                               | Ok m => Ok (with_ha st m) | Raise x => Raise x end
                   | _ => Raise EUnmodelled
                   end
                   = match val with
                     | PVal v => match ha_get (ms_ha st) (d, n) with
                                 | None => Raise ENameError
-                                | Some s => Ok (with_ha st (ha_write H (ms_ha st) (d, n) (fst s) (aset k v (snd s))))
+                                | Some s => Ok (with_ha st (ha_write H now (ms_ha st) (d, n) (hs_val s) (aset k v (hs_attrs s))))
                                 end
                     | _ => Raise EUnmodelled
                     end).
@@ -397,7 +399,7 @@ Section Refine.
   Qed.
 
   Lemma delete_dn_spec locals st e : dn_len_ok e = true -> wf_ha (ms_ha st) ->
-    delete_dn cf locals st e = spec_del_expr H funcs locals st (dn_parts e).
+    delete_dn cf locals st now e = spec_del_expr H funcs now locals st (dn_parts e).
   Proof.
     intros L W. destruct (dn_shape e L) as [(d & n & ->)|(d & n & k & ->)].
     - cbn [delete_dn cf_dev cf d_del_ignores_pyvar all_off]. unfold collapse. cbn [dn_head dn_parts app].
@@ -424,7 +426,7 @@ Section Refine.
 
   (* one script operation *)
   Lemma model_op_spec locals st o : wf_state st ->
-    model_op cf locals st o = spec_op H funcs svcargs locals st o.
+    model_op cf now locals st o = spec_op H funcs svcargs now locals st o.
   Proof.
     intros [W Ws]. destruct o; cbn [model_op spec_op cf_host cf_svcargs cf_dev cf].
     - destruct (dn_len_ok e) eqn:L; [rewrite aeval_dn_spec by assumption|]; reflexivity.
@@ -444,7 +446,7 @@ Section Refine.
     - rewrite py_getattr_slot. reflexivity.
   Qed.
 
-  Lemma model_step_spec st s : wf_state st -> model_step cf st s = spec_step H funcs svcargs st s.
+  Lemma model_step_spec st s : wf_state st -> model_step cf now st s = spec_step H funcs svcargs now st s.
   Proof.
     intros W. destruct s as [x|locals o]; cbn [model_step spec_step cf_host cf]; [reflexivity|].
     rewrite model_op_spec by assumption. reflexivity.
@@ -473,6 +475,9 @@ Section Preserve.
   Notation wf_ha := (wf_ha H).
   Notation wf_state := (wf_state H).
 
+  Section Step.
+  Variable now : N.
+
   Lemma wf_slots_set t j p : wf_slots t -> wf_val p -> wf_slots (slot_set j p t).
   Proof. intros W Wp j'. rewrite slot_get_set. destruct (N.eqb j' j); [exact Wp | apply W]. Qed.
 
@@ -481,8 +486,8 @@ Section Preserve.
 
   Lemma entity_attr_wf e s k p : entity_attr H e s k = Ok p -> wf_val p.
   Proof.
-    unfold entity_attr. destruct (alookup k (virtual_fields H e)); [intros E; inversion E; exact I|].
-    destruct (alookup k (snd s)); [intros E; inversion E; exact I|].
+    unfold entity_attr. destruct (alookup k (virtual_fields H e s)); [intros E; inversion E; exact I|].
+    destruct (alookup k (hs_attrs s)); [intros E; inversion E; exact I|].
     destruct (mem_ident k state_callable_attrs); intros E; inversion E; exact I.
   Qed.
 
@@ -534,7 +539,7 @@ Section Preserve.
     intros W Wr. destruct r as [st'|x]; cbn [lift_st snd]; [apply Wr; reflexivity | exact W].
   Qed.
 
-  Lemma spec_set_wf m nm value na kw m' : wf_ha m -> spec_set H m nm value na kw = Ok m' -> wf_ha m'.
+  Lemma spec_set_wf m nm value na kw m' : wf_ha m -> spec_set H now m nm value na kw = Ok m' -> wf_ha m'.
   Proof.
     intros W. unfold spec_set. destruct nm as [|d [|n [|x r]]]; try discriminate.
     destruct value as [v|v dct| | | |]; try discriminate; intros E; inversion E; subst m'; apply wf_ha_write; try assumption.
@@ -543,24 +548,24 @@ Section Preserve.
     - apply Hidem.
   Qed.
 
-  Lemma spec_setattr_wf m nm v m' : wf_ha m -> spec_setattr H m nm v = Ok m' -> wf_ha m'.
+  Lemma spec_setattr_wf m nm v m' : wf_ha m -> spec_setattr H now m nm v = Ok m' -> wf_ha m'.
   Proof.
     intros W. unfold spec_setattr. destruct nm as [|d [|n [|k [|x r]]]]; try discriminate.
     destruct (ha_get m (d, n)) as [s|] eqn:Eg; try discriminate.
     intros E; inversion E; subst m'. apply wf_ha_write; [assumption | exact (W _ _ Eg)].
   Qed.
 
-  Lemma spec_delete_wf m nm m' : wf_ha m -> spec_delete H m nm = Ok m' -> wf_ha m'.
+  Lemma spec_delete_wf m nm m' : wf_ha m -> spec_delete H now m nm = Ok m' -> wf_ha m'.
   Proof.
     intros W. unfold spec_delete. destruct nm as [|d [|n [|k [|x r]]]]; try discriminate.
     - destruct (ha_get m (d, n)); try discriminate. intros E; inversion E; subst m'. apply wf_ha_del; assumption.
     - destruct (ha_get m (d, n)) as [s|] eqn:Eg; try discriminate.
-      destruct (amem k (snd s)); try discriminate.
+      destruct (amem k (hs_attrs s)); try discriminate.
       intros E; inversion E; subst m'. apply wf_ha_write; [assumption | exact (W _ _ Eg)].
   Qed.
 
   Lemma spec_assign_wf locals st parts rhs st' : wf_state st ->
-    spec_assign H funcs locals st parts rhs = Ok st' -> wf_state st'.
+    spec_assign H funcs now locals st parts rhs = Ok st' -> wf_state st'.
   Proof.
     intros [W Ws]. unfold spec_assign.
     assert (Wg : forall g, wf_state (with_globals st g)) by (intros g; split; assumption).
@@ -578,13 +583,13 @@ Section Preserve.
   Qed.
 
   Lemma spec_del_expr_wf locals st parts st' : wf_state st ->
-    spec_del_expr H funcs locals st parts = Ok st' -> wf_state st'.
+    spec_del_expr H funcs now locals st parts = Ok st' -> wf_state st'.
   Proof.
     intros [W Ws]. unfold spec_del_expr.
     assert (Wg : forall g, wf_state (with_globals st g)) by (intros g; split; assumption).
-    assert (Wd : forall nm, match spec_delete H (ms_ha st) nm with Ok m => Ok (with_ha st m) | Raise x => Raise x end = Ok st' ->
+    assert (Wd : forall nm, match spec_delete H now (ms_ha st) nm with Ok m => Ok (with_ha st m) | Raise x => Raise x end = Ok st' ->
                             wf_state st').
-    { intros nm. destruct (spec_delete H (ms_ha st) nm) as [m|x] eqn:Ed; try discriminate.
+    { intros nm. destruct (spec_delete H now (ms_ha st) nm) as [m|x] eqn:Ed; try discriminate.
       intros E; inversion E; subst. split; [cbn; eapply spec_delete_wf; eassumption | exact Ws]. }
     destruct parts as [|d [|n [|k [|x r]]]]; try discriminate.
     - destruct (denote funcs locals st d n) as [o|o| |].
@@ -595,7 +600,7 @@ Section Preserve.
     - destruct (denote funcs locals st d n) as [o|o| |]; try discriminate; apply Wd.
   Qed.
 
-  Lemma ext_op_wf st x : wf_state st -> wf_state (ext_op H st x).
+  Lemma ext_op_wf st x : wf_state st -> wf_state (ext_op H now st x).
   Proof.
     intros [W Ws]. destruct x as [e v a|e|e|e]; cbn [ext_op].
     - split; [cbn; unfold ha_async_set; apply wf_ha_write; [assumption | apply Hidem] | exact Ws].
@@ -604,7 +609,7 @@ Section Preserve.
     - split; assumption.
   Qed.
 
-  Lemma spec_step_wf st s : wf_state st -> wf_state (snd (spec_step H funcs svcargs st s)).
+  Lemma spec_step_wf st s : wf_state st -> wf_state (snd (spec_step H funcs svcargs now st s)).
   Proof.
     intros W. destruct s as [x|locals o]; cbn [spec_step snd]; [apply ext_op_wf; assumption|].
     destruct W as [Wh Ws]. assert (W : wf_state st) by (split; assumption).
@@ -628,15 +633,17 @@ Section Preserve.
     - exact W.
   Qed.
 
+  End Step.
+
   (* C16, main statement: for every sequence of script operations and external changes, started in any state whose
      stored values are strings, the Model of the code (switches off) yields the same outputs and the same final
      state as the documented rules.  Induction over the sequence; the invariant is carried along. *)
-  Theorem run_refines : forall steps st, wf_state st ->
-    run_model {| cf_dev := all_off; cf_host := H; cf_funcs := funcs; cf_svcargs := svcargs |} st steps
-    = run_spec H funcs svcargs st steps.
+  Theorem run_refines : forall steps now st, wf_state st ->
+    run_model {| cf_dev := all_off; cf_host := H; cf_funcs := funcs; cf_svcargs := svcargs |} now st steps
+    = run_spec H funcs svcargs now st steps.
   Proof.
-    induction steps as [|s r IH]; intros st W; cbn [run_model run_spec]; [reflexivity|].
-    rewrite (model_step_spec H funcs svcargs Hidem Hnn st s W).
+    induction steps as [|s r IH]; intros now st W; cbn [run_model run_spec]; [reflexivity|].
+    rewrite (model_step_spec H funcs svcargs now Hidem Hnn st s W).
     rewrite IH by (apply spec_step_wf; exact W). reflexivity.
   Qed.
 End Preserve.
@@ -667,7 +674,7 @@ Proof. destruct r; reflexivity. Qed.
 Lemma lift_st_slots st r : (forall st', r = Ok st' -> ms_slots st' = ms_slots st) -> ms_slots (snd (lift_st st r)) = ms_slots st.
 Proof. intros Hr. destruct r as [st'|x]; cbn [lift_st snd]; [apply Hr; reflexivity | reflexivity]. Qed.
 
-Lemma assign_dn_slots cf locals st e val st' : assign_dn cf locals st e val = Ok st' -> ms_slots st' = ms_slots st.
+Lemma assign_dn_slots cf locals st now e val st' : assign_dn cf locals st now e val = Ok st' -> ms_slots st' = ms_slots st.
 Proof.
   unfold assign_dn, set_var_attr. intros E.
   repeat match type of E with
@@ -675,7 +682,7 @@ Proof.
          end; inversion E; subst; reflexivity.
 Qed.
 
-Lemma delete_dn_slots cf locals st e st' : delete_dn cf locals st e = Ok st' -> ms_slots st' = ms_slots st.
+Lemma delete_dn_slots cf locals st now e st' : delete_dn cf locals st now e = Ok st' -> ms_slots st' = ms_slots st.
 Proof.
   unfold delete_dn, del_var_attr, state_delete_st. intros E.
   repeat match type of E with
@@ -684,8 +691,8 @@ Proof.
          end; inversion E; subst; reflexivity.
 Qed.
 
-Lemma model_step_slots cf st s j : writes_slot j s = false ->
-  slot_get j (ms_slots (snd (model_step cf st s))) = slot_get j (ms_slots st).
+Lemma model_step_slots cf now st s j : writes_slot j s = false ->
+  slot_get j (ms_slots (snd (model_step cf now st s))) = slot_get j (ms_slots st).
 Proof.
   intros Hw. destruct s as [x|locals o]; cbn [model_step snd].
   - destruct x; cbn [ext_op]; try reflexivity. destruct (mem_ename e (ms_svcs st)); reflexivity.
@@ -699,10 +706,10 @@ Proof.
     + rewrite lift_ha_slots. reflexivity.
 Qed.
 
-Lemma run_model_slots cf steps : forall st j, forallb (fun s => negb (writes_slot j s)) steps = true ->
-  slot_get j (ms_slots (snd (run_model cf st steps))) = slot_get j (ms_slots st).
+Lemma run_model_slots cf steps : forall now st j, forallb (fun s => negb (writes_slot j s)) steps = true ->
+  slot_get j (ms_slots (snd (run_model cf now st steps))) = slot_get j (ms_slots st).
 Proof.
-  induction steps as [|s r IH]; intros st j Hall; cbn [run_model snd]; [reflexivity|].
+  induction steps as [|s r IH]; intros now st j Hall; cbn [run_model snd]; [reflexivity|].
   cbn [forallb] in Hall. apply andb_true_iff in Hall. destruct Hall as [Hs Hr].
   rewrite IH by exact Hr. apply model_step_slots. destruct (writes_slot j s); [discriminate | reflexivity].
 Qed.
@@ -710,17 +717,17 @@ Qed.
 (* A snapshot captured from entity d.n (by state.get; reading the name is the same by C16_priority) holds exactly the
    value and attributes the entity had at that moment, and reading the variable after ANY later sequence of script
    operations and external changes that does not reassign the variable returns exactly that snapshot. *)
-Theorem snapshot_immutable : forall cf st d n j s later,
+Theorem snapshot_immutable : forall cf now st d n j s later,
   ha_get (ms_ha st) (d, n) = Some s ->
   forallb (fun x => negb (writes_slot j x)) later = true ->
   let snap := stateval_new (cf_host cf) (d, n) s in
-  let st1 := snd (model_step cf st (SScript [] (OGet [d; n] (Some j)))) in
-  let st2 := snd (run_model cf st1 later) in
-  fst (model_step cf st (SScript [] (OGet [d; n] (Some j)))) = Some (Ok snap) /\
-  fst (model_step cf st2 (SScript [] (OReadSlot j))) = Some (Ok snap).
+  let st1 := snd (model_step cf now st (SScript [] (OGet [d; n] (Some j)))) in
+  let st2 := snd (run_model cf (N.succ now) st1 later) in
+  forall now', fst (model_step cf now st (SScript [] (OGet [d; n] (Some j)))) = Some (Ok snap) /\
+  fst (model_step cf now' st2 (SScript [] (OReadSlot j))) = Some (Ok snap).
 Proof.
-  intros cf st d n j s later Eg Hl. cbn zeta.
-  assert (E1 : model_step cf st (SScript [] (OGet [d; n] (Some j)))
+  intros cf now st d n j s later Eg Hl. cbn zeta. intros now'.
+  assert (E1 : model_step cf now st (SScript [] (OGet [d; n] (Some j)))
                = (Some (Ok (stateval_new (cf_host cf) (d, n) s)),
                   with_slots st (slot_set j (stateval_new (cf_host cf) (d, n) s) (ms_slots st)))).
   { cbn [model_step model_op state_get]. rewrite Eg. reflexivity. }
@@ -740,7 +747,7 @@ Theorem priority : forall cf locals st d n,
      assigning d.n leaves the state machine alone *)
   (forall o, is_pyvar locals st d o ->
      aeval_dn cf locals st (DAttr (DHead d) n) = of_res (obj_attr o n) /\
-     forall val st', assign_dn cf locals st (DAttr (DHead d) n) val = Ok st' ->
+     forall now val st', assign_dn cf locals st now (DAttr (DHead d) n) val = Ok st' ->
                      ms_ha st' = ms_ha st /\ ms_svcs st' = ms_svcs st) /\
   (* otherwise a pyscript function name or an existing service wins over a state of the same name *)
   (no_pyvar locals st d -> mem_ename (d, n) (cf_funcs cf) || mem_ename (d, n) (ms_svcs st) = true ->
@@ -753,7 +760,7 @@ Proof.
   - intros o Hv. split.
     + cbn [aeval_dn]. unfold collapse. cbn [dn_head]. unfold ast_name_plain.
       destruct Hv as [Hl|[Hl Hg]]; rewrite Hl; [|rewrite Hg]; reflexivity.
-    + intros val st'. cbn [assign_dn]. unfold collapse. cbn [dn_head]. unfold ast_name_plain, set_var_attr.
+    + intros now val st'. cbn [assign_dn]. unfold collapse. cbn [dn_head]. unfold ast_name_plain, set_var_attr.
       destruct Hv as [Hl|[Hl Hg]]; rewrite Hl; [|rewrite Hg]; destruct val; intros E; inversion E; subst; split; reflexivity.
   - intros [Hl Hg] Hc. cbn [aeval_dn]. unfold collapse. cbn [dn_head dn_parts app]. unfold ast_name_plain.
     rewrite Hl, Hg. unfold ast_name_dotted, function_get. rewrite Hc. reflexivity.
@@ -763,11 +770,11 @@ Proof.
 Qed.
 
 (* with D7 repaired, del d.n on a Python variable does not touch the state machine either *)
-Theorem priority_del : forall cf locals st d n o st',
+Theorem priority_del : forall cf locals st now d n o st',
   d_del_ignores_pyvar (cf_dev cf) = false -> is_pyvar locals st d o ->
-  delete_dn cf locals st (DAttr (DHead d) n) = Ok st' -> ms_ha st' = ms_ha st /\ ms_svcs st' = ms_svcs st.
+  delete_dn cf locals st now (DAttr (DHead d) n) = Ok st' -> ms_ha st' = ms_ha st /\ ms_svcs st' = ms_svcs st.
 Proof.
-  intros cf locals st d n o st' Hd Hv. cbn [delete_dn]. rewrite Hd. unfold collapse. cbn [dn_head]. unfold ast_name_plain, del_var_attr.
+  intros cf locals st now d n o st' Hd Hv. cbn [delete_dn]. rewrite Hd. unfold collapse. cbn [dn_head]. unfold ast_name_plain, del_var_attr.
   destruct Hv as [Hl|[Hl Hg]]; rewrite Hl; [|rewrite Hg].
   - destruct (amem n o); intros E; inversion E; subst; split; reflexivity.
   - destruct (amem n o); intros E; inversion E; subst; split; reflexivity.
@@ -799,7 +806,7 @@ Proof.
 Qed.
 
 Lemma wf_ha_forallb (H : host) m :
-  forallb (fun p : ename * hastate => N.eqb (h_str H (fst (snd p))) (fst (snd p))) m = true -> wf_ha H m.
+  forallb (fun p : ename * hastate => N.eqb (h_str H (hs_val (snd p))) (hs_val (snd p))) m = true -> wf_ha H m.
 Proof.
   induction m as [|[e0 s0] r IH]; intros Hall e s E; cbn [ha_get] in E; [discriminate|].
   cbn [forallb fst snd] in Hall. apply andb_true_iff in Hall. destruct Hall as [H0 Hr].
@@ -820,7 +827,7 @@ Definition ex_host : host :=
   mk_host [(0, 27); (10, 10); (11, 11); (15, 15); (16, 15); (19, 20); (20, 20); (27, 27)]%N [(19, 16)]%N
           [((1, 10), 500); ((1, 11), 501); ((3, 10), 512)]%N 19%N 21%N.
 Definition ex_state : mstate :=
-  {| ms_ha := [((1, 10), (10, [(20, 16); (21, 11)])); ((3, 10), (11, []))]%N; ms_svcs := [(1, 14)]%N;
+  {| ms_ha := [((1, 10), mk_hs 10 [(20, 16); (21, 11)] 1 2 3); ((3, 10), mk_hs 11 [] 1 1 1)]%N; ms_svcs := [(1, 14)]%N;
      ms_globals := [(3, [(10, 15)])]%N; ms_slots := [(0, PVal 0)]%N |}.
 Definition ex_funcs : list ename := state_function_names.
 Definition ex_cfg (dv : deviations) : config :=
@@ -847,16 +854,16 @@ Definition ex_steps : list step :=
     SScript [] (ODel (DAttr (DAttr (DHead 1) 11) 20));
     SScript [] (OReadSlot 0) ]%N.
 Example ex_run_nontrivial :
-  ms_ha (snd (run_model (ex_cfg all_off) ex_state ex_steps))
-  = [((1, 10), (11, [(22, 10); (20, 16)])); ((3, 10), (11, [])); ((1, 11), (10, [(21, 11)]))]%N
-  /\ nth_error (fst (run_model (ex_cfg all_off) ex_state ex_steps)) 6
-     = Some (Some (Ok (PSnap 10 [(20, 16); (21, 11); (100, 500); (102, 1); (101, 1); (103, 1)])))%N.
+  ms_ha (snd (run_model (ex_cfg all_off) 4 ex_state ex_steps))
+  = [((1, 10), mk_hs 11 [(22, 10); (20, 16)] 5 8 8); ((3, 10), mk_hs 11 [] 1 1 1); ((1, 11), mk_hs 10 [(21, 11)] 6 9 9)]%N
+  /\ nth_error (fst (run_model (ex_cfg all_off) 4 ex_state ex_steps)) 6
+     = Some (Some (Ok (PSnap 10 [(20, 16); (21, 11); (100, 500); (102, 100002); (101, 100001); (103, 100003)])))%N.
 Proof. split; vm_compute; reflexivity. Qed.
 
 (* D160: with the switch on (today's code) `pvd.e0 = None` keeps the old value; the rules demand "None" *)
 Theorem refuted_D160 :
   exists steps, wf_state ex_host ex_state /\
-    run_model (ex_cfg (only 160)) ex_state steps <> run_spec ex_host ex_funcs [(1, 13)]%N ex_state steps.
+    run_model (ex_cfg (only 160)) 4 ex_state steps <> run_spec ex_host ex_funcs [(1, 13)]%N 4 ex_state steps.
 Proof.
   exists [SScript [] (OAssign (DAttr (DHead 1%N) 10%N) (VLit 0%N))]. split; [apply host_table_ok|].
   intros E. vm_compute in E. discriminate E.
@@ -865,7 +872,7 @@ Qed.
 (* D161: `pvd.e0.value = 1` sets the state value instead of the attribute `value` *)
 Theorem refuted_D161 :
   exists steps, wf_state ex_host ex_state /\
-    run_model (ex_cfg (only 161)) ex_state steps <> run_spec ex_host ex_funcs [(1, 13)]%N ex_state steps.
+    run_model (ex_cfg (only 161)) 4 ex_state steps <> run_spec ex_host ex_funcs [(1, 13)]%N 4 ex_state steps.
 Proof.
   exists [SScript [] (OAssign (DAttr (DAttr (DHead 1%N) 10%N) set_param_value) (VLit 16%N))]. split; [apply host_table_ok|].
   intros E. vm_compute in E. discriminate E.
@@ -874,7 +881,7 @@ Qed.
 (* D7: `del pvg.e0` with pvg a global Python object deletes the state entity pvg.e0 *)
 Theorem refuted_D7 :
   exists steps, wf_state ex_host ex_state /\
-    run_model (ex_cfg (only 7)) ex_state steps <> run_spec ex_host ex_funcs [(1, 13)]%N ex_state steps.
+    run_model (ex_cfg (only 7)) 4 ex_state steps <> run_spec ex_host ex_funcs [(1, 13)]%N 4 ex_state steps.
 Proof.
   exists [SScript [] (ODel (DAttr (DHead 3%N) 10%N))]. split; [apply host_table_ok|].
   intros E. vm_compute in E. discriminate E.
